@@ -57,7 +57,7 @@ if '--table' in sys.argv:
     print('|---|---|---|---|---|')
     for m in rows:
         need = (m['needs_to_manifest'] or '').replace('\n', ' ').replace('|', '/')
-        if len(need) > 230:
-            need = need[:227] + '...'
-        st = '' if m['status'] == 'active' else ' (%s)' % m['status']
+        if len(need) > 170:
+            need = need[:167] + '...'
+        st = '' if m['status'] == 'active' else ' (%s)' % m['status'].split(':')[0]
         print('| %s%s | %s | %s | %s | %s |' % (m['name'], st, m['property'], need, ', '.join(m['detected_by']) or '-', ', '.join(m['not_detected_by']) or '-'))
